@@ -705,3 +705,57 @@ Example clean_history_nonvacuous :
   first_class wcompat false ideal0 acts = 0%N /\
   snd (run Wr false wcompat st0 acts) = [(2, 2, 2, 2); (2, 0, 1, -1)].
 Proof. split; vm_compute; reflexivity. Qed.
+
+(* the same three statements without the `agrees` wrapper *)
+Lemma fixed_refines_spec_clean : forall sd compat acts,
+  let r := run sd true compat st0 acts in
+  let ir := irun compat ideal0 acts in
+  snd r = snd ir /\ keys (matched (fst r)) = i_keys (fst ir) /\ cur (fst r) = zlen (matched (fst r)) /\
+  total (fst r) = i_total (fst ir) /\ NoDup (keys (matched (fst r))) /\
+  map x_key (prox (fst r)) = keys (matched (fst r)).
+Proof.
+  intros sd compat acts. destruct (fixed_refines_spec sd compat acts) as [A [B [C [D [E F]]]]].
+  cbv zeta. repeat split; auto.
+Qed.
+Lemma faithful_counts_clean : forall sd compat acts,
+  first_class compat false ideal0 acts = 0%N ->
+  let r := run sd false compat st0 acts in
+  let ir := irun compat ideal0 acts in
+  snd r = snd ir /\ keys (matched (fst r)) = i_keys (fst ir) /\ cur (fst r) = zlen (matched (fst r)) /\
+  total (fst r) = i_total (fst ir) /\ NoDup (keys (matched (fst r))).
+Proof.
+  intros sd compat acts H. destruct (faithful_counts_outside_classes sd compat acts H) as [A [B [C [D [E F]]]]].
+  cbv zeta. repeat split; auto.
+Qed.
+Lemma faithful_proxies_clean : forall sd compat acts,
+  first_class compat true ideal0 acts = 0%N ->
+  let r := run sd false compat st0 acts in
+  map x_key (prox (fst r)) = keys (matched (fst r)).
+Proof.
+  intros sd compat acts H. destruct (faithful_proxies_outside_classes sd compat acts H) as [A [B [C [D [E F]]]]].
+  cbv zeta. auto.
+Qed.
+(* a history outside classes 1-4 is in particular outside classes 1-3 *)
+Lemma first_class_true_false : forall compat l i, first_class compat true i l = 0%N -> first_class compat false i l = 0%N.
+Proof.
+  intros compat l; induction l as [|a t IH]; intros i H; cbn [first_class] in *; [reflexivity|].
+  destruct (N.eqb (class_of compat i a) 0) eqn:E0; cbn [negb andb orb] in *.
+  - apply IH; assumption.
+  - rewrite H in E0; discriminate.
+Qed.
+
+Lemma spec_read_and_match : forall compat i d,
+  snd (istep compat i ARead) =
+    Some (i_total i, i_total i - i_rt i, zlen (i_keys i), zlen (i_keys i) - i_rc i) /\
+  i_rt (fst (istep compat i ARead)) = i_total i /\
+  i_rc (fst (istep compat i ARead)) = zlen (i_keys i) /\
+  (compat d = true -> kmem (ekey d) (i_keys i) = false ->
+     i_keys (fst (istep compat i (ADisc d))) = i_keys i ++ [ekey d] /\
+     i_total (fst (istep compat i (ADisc d))) = i_total i + 1) /\
+  (compat d = true -> kmem (ekey d) (i_keys i) = true -> fst (istep compat i (ADisc d)) = i).
+Proof.
+  intros compat i d; cbn [istep fst snd i_rt i_rc].
+  split; [reflexivity|]. split; [reflexivity|]. split; [reflexivity|]. split.
+  - intros Hc Hk; rewrite Hc, Hk; cbn; split; reflexivity.
+  - intros Hc Hk; rewrite Hc, Hk; reflexivity.
+Qed.
